@@ -404,8 +404,11 @@ def mon_C14(run):
         M = B[:D] * scale
         if not np.allclose(B[D:], -B[:D], rtol=0, atol=0):
             run.v("C14", "directions are not +/- pairs", "basis-not-paired", "")
+        nmax = max(1, int(np.round(pol["smesh"] / mesh))) if pol.get("smesh") else None
         if not np.allclose(M, np.round(M), atol=1e-9):
             run.v("C14", "direction matrix is not integer", "basis-not-integer", "")
+        elif nmax is not None and np.max(np.abs(M)) > nmax + 1e-9:
+            run.v("C14", "direction entries exceed the mesh-ratio bound", "basis-entry-bound", (float(np.max(np.abs(M))), nmax))
         elif abs(np.linalg.det(np.round(M))) < 0.5:
             run.v("C14", "direction matrix is singular", "basis-singular", "")
         run.stats["polls_checked"] += 1
@@ -413,6 +416,12 @@ def mon_C14(run):
 
 # ---------------------------------------------------------------- C17 / C18 run level
 def mon_C17r(run):
+    # nothing infeasible is handed on for evaluation - the starting point (as snapped to the mesh) included
+    if run.consf is not None:
+        for c in run.calls:
+            if bool(run.consf(c["x"].reshape(1, -1))[0]):
+                run.v("C17", "a point violating the non-box constraint was handed on for evaluation", "evaluated-infeasible/%s" % c["phase"], (c["k"], c["x"].tolist()))
+                break
     if run.mode != "det" or run.script.get("second") is not None:
         return
     cnt = collections.Counter(c["x"].tobytes() for c in run.calls)
